@@ -1,3 +1,17 @@
 import SteelVerif.C12.Props
 open SteelVerif.C12
-#print axioms read_defined
+#print axioms read_write_partial
+#print axioms read_write_partial_i
+#print axioms read_write_partial_ii
+#print axioms read_write_partial_iii
+#print axioms read_write_partial_iv
+#print axioms read_write_partial_v
+#print axioms read_write_quote
+#print axioms sampleDatum_wfd
+#print axioms counter_symbol_needs_quoting
+#print axioms counter_empty_symbol
+#print axioms counter_numeric_symbol
+#print axioms counter_plus_symbol
+#print axioms counter_alias
+#print axioms counter_unquote
+#print axioms not_ReadWrite
